@@ -92,6 +92,10 @@ func (o *CandidateNode) copyToYamlNode(node *yaml.Node) {
 			// the yaml library folds such text wrongly (a more indented line gains a blank line, trailing
 			// blank lines grow on every pass): the value is kept by writing it as a literal block
 			node.Style = (node.Style &^ yaml.FoldedStyle) | yaml.LiteralStyle
+		case strings.Contains(o.Value, "\n") && strings.ContainsAny(o.Value, "\u2028\u2029\u0085") && node.Style&(yaml.SingleQuotedStyle|yaml.DoubleQuotedStyle) == 0:
+			// the yaml library writes multi-line text as a block scalar, in which these characters are line breaks
+			// of their own to the reader: escaped in double quotes they come back as they are
+			node.Style = yaml.DoubleQuotedStyle
 		case o.Tag == "!!null" && o.Value == "" && node.Style == 0 && (inFlow || o.IsMapKey):
 			// the yaml library writes an empty scalar in a flow collection or as a key as '' - a string
 			node.Value = "null"
